@@ -25,6 +25,7 @@ def showRej : Rej → String
   | .writeReadonly x => s!"writeReadonly:{x}"
   | .storeCaller f => s!"storeCaller:{f}"
   | .retInternal x => s!"retInternal:{x}"
+  | .retCaller x => s!"retCaller:{x}"
   | .bits => "bits"
 
 def find (name : String) : Option Entry :=
